@@ -20,11 +20,14 @@ enum {
   PV_WRONG_CLIENT_COOKIE,
   PV_REPLAY_OLD,      /* replay of an earlier genuine answer */
   PV_NO_COOKIE,       /* perfect reply but without a cookie, to a server that has proven cookie support */
+  PV_NO_COOKIE_FORMERR, /* FORMERR without OPT (what a pre-EDNS server would say), right id and question */
+  PV_NO_COOKIE_ERR,     /* SERVFAIL / REFUSED with OPT but without a cookie */
   PV__COUNT
 };
 static const char *const pv_names[PV__COUNT] = { "wrong-id",        "wrong-name",        "wrong-type",   "wrong-class",
                                                  "wrong-case",      "wrong-addr-far",    "wrong-addr-near", "wrong-socket",
-                                                 "no-question",     "wrong-client-cookie", "replay-old", "no-cookie" };
+                                                 "no-question",     "wrong-client-cookie", "replay-old", "no-cookie",
+                                                 "no-cookie-formerr", "no-cookie-error" };
 
 static int      prov_adv_on;
 static vh_rng_t adv_rng;
@@ -40,6 +43,11 @@ static int      prov_acceptable_adversary; /* an injected packet turned out to b
 static uint32_t prov_last_read_serial;
 static int      prov_batch_reads; /* the socket layer hands over everything that is queued in one pass */
 static uint32_t prov_variants_seen;
+/* guard: the packet read last in the current processing call is a well-formed forgery that must be dropped without
+ * any effect, and the query it names is not due for a retry by its own timeout */
+static uint32_t prov_guard_serial;
+static int      prov_guard_call;
+static uint16_t prov_guard_qid;
 
 static int prov_effectively_forged_fwd(uint32_t serial, const char **why);
 
@@ -80,10 +88,50 @@ static void prov_on_read(int fd, uint32_t serial)
       prov_acceptable_adversary++;
     }
   }
+  prov_guard_serial = 0;
+  if (prov_variant_of[serial - 1] && q != NULL && !prov_batch_reads) {
+    int         v   = prov_variant_of[serial - 1] - 1;
+    const char *why = "";
+    if ((v == PV_NO_COOKIE || v == PV_NO_COOKIE_FORMERR || v == PV_NO_COOKIE_ERR || v == PV_WRONG_CLIENT_COOKIE ||
+         v == PV_WRONG_CASE || v == PV_WRONG_NAME || v == PV_WRONG_TYPE || v == PV_WRONG_CLASS) &&
+        prov_effectively_forged_fwd(serial, &why)) {
+      ares_timeval_t now;
+      ares_tvnow(&now);
+      if (!ares_timedout(&now, &q->timeout)) {
+        prov_guard_serial = serial;
+        prov_guard_call   = app_process_count;
+        prov_guard_qid    = pi->qid;
+      }
+    }
+  }
   if (prov_variant_of[serial - 1] && q != NULL) {
     prov_forged_live++;
     prov_variants_seen |= 1u << (prov_variant_of[serial - 1] - 1);
     sim_note("prov_forged_read_while_query_live");
+  }
+}
+
+/* every transmission, as the server receives it: a query must not be re-sent (with or without EDNS, to this or
+ * another server) because of a packet that fails the acceptance conditions.  Unparseable datagrams are another
+ * matter (the library treats them as a failure of the connection) and are not judged here. */
+static void prov_on_tx(int srvidx, int fd, int is_tcp, const uint8_t *msg, size_t len)
+{
+  (void)srvidx;
+  (void)fd;
+  (void)is_tcp;
+  if (len < 2 || prov_guard_serial == 0 || prov_guard_call != app_process_count) {
+    return;
+  }
+  MON_EVAL("prov_no_effect_of_forged");
+  if ((uint16_t)((msg[0] << 8) | msg[1]) == prov_guard_qid) {
+    const char *why = "";
+    char        key[96];
+    prov_effectively_forged_fwd(prov_guard_serial, &why);
+    snprintf(key, sizeof(key), "prov:forged-caused-resend:%s", why);
+    vh_violation(key, "query id %u was transmitted again (%zu octets, %s) in the processing call that read packet %u, which is %s and "
+                 "must be ignored; the query's own timeout was not due", prov_guard_qid, len, len > 12 && msg[11] ? "with additional records" :
+                 "no additional records", prov_guard_serial, why);
+    prov_guard_serial = 0;
   }
 }
 
@@ -107,7 +155,7 @@ static int prov_effectively_forged(uint32_t serial, const char **why)
     if (v - 1 == PV_WRONG_CLIENT_COOKIE) {
       return prov_cookie_live[serial - 1];
     }
-    if (v - 1 == PV_NO_COOKIE) {
+    if (v - 1 == PV_NO_COOKIE || v - 1 == PV_NO_COOKIE_FORMERR || v - 1 == PV_NO_COOKIE_ERR) {
       /* unacceptable only while the request carries a cookie and the server has proven support
        * (the regression period of 120 s is never reached in this profile) */
       return prov_cookie_live[serial - 1] && prov_proven_at_read[serial - 1];
@@ -185,7 +233,8 @@ static void prov_inject(void)
  * query is between its old connection and the next attempt */
 static void prov_shadow(int srvidx, int fd, int is_tcp, int txidx, int action, int64_t delay_us)
 {
-  static const int vs[] = { PV_WRONG_CASE, PV_WRONG_CASE, PV_NO_COOKIE, PV_WRONG_CLIENT_COOKIE, PV_WRONG_NAME, PV_WRONG_TYPE, PV_WRONG_ADDR_NEAR };
+  static const int vs[] = { PV_WRONG_CASE, PV_WRONG_CASE, PV_NO_COOKIE, PV_WRONG_CLIENT_COOKIE, PV_WRONG_NAME, PV_WRONG_TYPE, PV_WRONG_ADDR_NEAR,
+                            PV_NO_COOKIE_FORMERR, PV_NO_COOKIE_ERR };
   (void)srvidx;
   (void)fd;
   if (is_tcp || !prov_adv_on || txidx < 0) {
@@ -287,6 +336,12 @@ static void prov_inject_ex(int forced_txi, int forced_v, int64_t delay_us)
     case PV_NO_QUESTION:
       pl.action = SA_NOQUESTION;
       break;
+    case PV_NO_COOKIE_FORMERR:
+      pl.action = SA_FORMERR_NOOPT;
+      break;
+    case PV_NO_COOKIE_ERR:
+      pl.action = vh_chance(&adv_rng, 1, 2) ? SA_SERVFAIL : SA_REFUSED;
+      break;
     default:
       break;
   }
@@ -306,10 +361,10 @@ static void prov_inject_ex(int forced_txi, int forced_v, int64_t delay_us)
       }
       ck[3] ^= 0xff;
     }
-  } else if (v == PV_WRONG_CLIENT_COOKIE || v == PV_NO_COOKIE) {
+  } else if (v == PV_WRONG_CLIENT_COOKIE || v == PV_NO_COOKIE || v == PV_NO_COOKIE_FORMERR || v == PV_NO_COOKIE_ERR) {
     return; /* no cookie in play */
   }
-  if (v == PV_NO_COOKIE) {
+  if (v == PV_NO_COOKIE || v == PV_NO_COOKIE_FORMERR || v == PV_NO_COOKIE_ERR) {
     cklen = 0;
   }
   if (v == PV_REPLAY_OLD) {
@@ -532,7 +587,9 @@ static void run_prov(vh_rng_t *rng)
   mon_tok_done_hook     = mon_prov_tok_done;
   mon_server_state_hook = mon_prov_server_state;
   srv_sent_hook         = prov_shadow;
+  srv_frame_hook        = prov_on_tx;
   sim_read_hook         = prov_on_read;
+  prov_guard_serial     = 0;
   run_generic(rng);
   prov_capture(&prov_a);
   variants       = prov_variants_seen;
